@@ -87,11 +87,16 @@ def generate(run_seed, prop, tier="quick"):
             small = rng.random() < 0.5
             if prop == "C06":
                 size = rng.randint(5, 14) if small else rng.randint(10, 30)
-                item = gen_mol.build_item(rng, size=size, n_leaves=rng.randint(3, 9),
+                n_leaves = rng.randint(3, 9)
+                if rng.random() < 0.12:          # intermediate levels with more than ten nodes
+                    size, n_leaves = rng.randint(28, 45), rng.randint(11, 18)
+                item = gen_mol.build_item(rng, size=size, n_leaves=n_leaves,
                                           mid_levels=rng.choice([0, 1, 1, 2, 2, 2, 3, 3]), weights=rng.random() < 0.3,
                                           hyper=("S", "P", "N") if rng.random() < 0.4 else (), explicit_h=rng.random() < 0.25)
             else:
-                item = gen_mol.build_item(rng, size=rng.randint(3, 12) if small else rng.randint(8, 30),
+                big = rng.random() < 0.1
+                item = gen_mol.build_item(rng, size=rng.randint(28, 45) if big else (rng.randint(3, 12) if small else rng.randint(8, 30)),
+                                          n_leaves=rng.randint(11, 18) if big else None,
                                           weights=rng.random() < 0.4,
                                           hyper=("S", "P", "N") if rng.random() < 0.4 else (), explicit_h=rng.random() < 0.25)
         elif roll < 0.86:
@@ -375,6 +380,8 @@ class _Run:
             if ctor == "string":
                 st["res"] = MoleculeResolver.from_string(".".join([item["base"]] + list(blocks)), last_all_atom=laa, legacy=legacy)
             elif ctor == "graph":
+                # a fresh base graph object per construction: resolve() annotates the caller's graph by design,
+                # so a reused (already annotated, possibly scribbled) object is not "the same input"
                 base_graph = read_cgsmiles(item["base"])
                 st["res"] = MoleculeResolver.from_graph(".".join(blocks), base_graph, last_all_atom=laa, legacy=legacy)
             elif ctor == "dicts":
